@@ -4,7 +4,7 @@ import json
 import os
 
 from . import stores
-from .util import safe_call
+from .util import md5hex, safe_call
 
 # algorithms a store may be configured with (`hash_name`) besides the usual md5 flavours: every fixed-length hashlib
 # algorithm is in dvc_data.hashfile.hash.algorithms_available. Objects and the entries of directory listings are then
@@ -46,9 +46,62 @@ def rekey_universe(uni, algo, style="canonical"):
     return out
 
 
-def gen_case(rng, algo=None):
-    """algo=None: the md5 flavours (the original family, same random draws); otherwise a store configured with `algo`"""
-    uni = stores.Universe(rng)
+# File names that are distinct on a POSIX file system (where the only special characters of a name are '/' and NUL) but fall
+# together under one of the normalisations path-handling code is tempted to apply: the other platform's separator, case folding,
+# stripping blanks / trailing dots, Unicode composition, URL-decoding, drive prefixes, leading "./" - and names JSON has to
+# escape. A directory listing keeps every one of them as a relpath of its own; a listing is split at '/' and nowhere else.
+CONFUSABLE = {
+    "separator": lambda a, b, c: [(a, b), (a + "\\" + b,), (a, b + "\\" + c), (a, b, c), (a + "\\" + b, c), (a + "\\" + b + "\\" + c,)],
+    "case": lambda a, b, c: [(a, b), (a.upper(), b), (a, b.upper()), (a.capitalize(), b)],
+    "blank": lambda a, b, c: [(b,), (b + " ",), (" " + b,), (a, b), (a + " ", b)],
+    "trailing_dot": lambda a, b, c: [(b,), (b + ".",), (a, c), (a + ".", c)],
+    "unicode": lambda a, b, c: [(a, b + "\u00e9"), (a, b + "e\u0301"), ("\u00c5" + c,), ("A\u030a" + c,), ("\u212b" + c,)],
+    "percent": lambda a, b, c: [(a, b), (a + "%2F" + b,), (a + "%2f" + b,), (a, b + "%20"), (a, b + " ")],
+    "drive": lambda a, b, c: [(b,), ("c:" + b,), ("c:", b), ("C:" + b,)],
+    "dot_slash": lambda a, b, c: [(b,), ("." + b,), ("._" + b,), ("..." + b,), (a, "." + b), (a, b)],
+    "escaped": lambda a, b, c: [(a + "\n" + b,), (a + "\\n" + b,), (a + "\t" + b,), (a + '"' + b,), (a + "\\\"" + b,), (a + "\\u002f" + b,)],
+}
+NAME_POOL = ["sub", "x", "data", "a", "dir", "f", "img", "n0", "raw", "b"]
+
+
+def rename_confusably(rng, uni):
+    """Give every directory of the universe 2-3 groups of such names, every member of a group listing a *different* file (as
+    far as the files go round) - so that confusing two of them would drop a file from the listing -, next to some of its
+    ordinary entries. Returns the kinds used."""
+    foids = list(uni.files)
+    kinds_used = set()
+    old = list(uni.trees.values())
+    uni.trees, uni.tree_raw = {}, {}
+    for ents in old:
+        pool = foids[:]
+        rng.shuffle(pool)
+        e = {}
+        for kind in rng.sample(sorted(CONFUSABLE), rng.randrange(2, 4)):
+            a, b, c = rng.sample(NAME_POOL, 3)
+            members = CONFUSABLE[kind](a, b, c)
+            for k in rng.sample(members, rng.randrange(2, min(4, len(members)) + 1)):
+                e[k] = pool.pop() if pool else rng.choice(foids)
+            kinds_used.add(kind)
+        for k, v in ents.items():
+            if rng.random() < 0.5:
+                e[("plain",) + k] = v
+        # a name is a file or a directory, not both
+        e = {k: v for k, v in e.items() if not any(k != m and m[: len(k)] == k for m in e)}
+        raw = stores.tree_bytes(e)
+        oid = md5hex(raw) + ".dir"
+        uni.trees[oid] = e
+        uni.tree_raw[oid] = raw
+    return sorted(kinds_used)
+
+
+def gen_case(rng, algo=None, names=False):
+    """algo=None: the md5 flavours (the original family, same random draws); otherwise a store configured with `algo`.
+    names: the directories list files under names that differ only by what a normalisation would erase (`rename_confusably`)"""
+    if names:
+        uni = stores.Universe(rng, nfiles=rng.randrange(6, 12))
+        kinds = rename_confusably(rng, uni)
+    else:
+        uni = stores.Universe(rng)
     style = None
     if algo is not None:
         style = rng.choice(["canonical", "canonical", "library", "compact", "relpath_first"])
@@ -90,6 +143,23 @@ def gen_case(rng, algo=None):
         case["listing_style"] = style
         case["shallow"] = rng.random() < 0.3
         case["dry"] = rng.random() < 0.25
+    if names:
+        # what protects a file here is mostly its being listed, and most requests can be expanded (the other families cover
+        # used directories that cannot be loaded): directories in use, few files in use on their own account
+        loadable = set(in_store) & set(in_cache if in_cache is not None else in_store)
+        used = []
+        for o in all_oids:
+            if rng.random() < ((0.6 if o in loadable else 0.06) if o.endswith(".dir") else 0.2):
+                used.append([hash_name, o])
+            if rng.random() < 0.12:
+                used.append([rng.choice(foreign), o])
+        if rng.random() < 0.12:
+            used.append([hash_name, _hexdigest(hash_name, b"absent-%d" % rng.randrange(1000)) + rng.choice(["", ".dir"])])
+        rng.shuffle(used)
+        case["used"] = used
+        case["names"] = kinds
+        case["shallow"] = rng.random() < 0.15
+        case["read_only"] = rng.random() < 0.03
     return case, uni
 
 
@@ -281,6 +351,10 @@ def check(ctx, case, uni, ans):
         if not case["shallow"] and not case["read_only"] and any(
                 n == case["hash_name"] and v in uni.trees and v in before for n, v in case["used"]):
             ctx.count("algo_store_used_dir_expanded")
+    if case.get("names") is not None:
+        for kind in case["names"]:
+            ctx.count("names:" + kind)
+        ctx.count("names:listing=" + str(case.get("listing_style")))
     model = dict(ans)
     if "store" in model:
         model["store"] = sorted(model["store"])
@@ -332,6 +406,17 @@ def check(ctx, case, uni, ans):
     ok = impl.get("removed") == len(unused) and impl["store"] == exp_after
     ctx.oracle(ok, case, {"why": "gc did not remove exactly the unused objects", "impl": impl,
                           "expected_removed": len(unused), "expected_store": exp_after})
+    if case.get("names") is not None and not case["shallow"]:
+        # the clause about expansion, spelled out per relpath: every file a used directory lists - under whatever name - that the
+        # store held is still there (a dry run included)
+        lost = {}
+        for n, v in case["used"]:
+            if n == case["hash_name"] and v in uni.trees:
+                ctx.count("names:used_dir_expanded")
+                for k, f in uni.trees[v].items():
+                    if f in before and f not in impl["store"]:
+                        lost.setdefault(v, {})["/".join(k)] = f
+        ctx.oracle(not lost, case, {"why": "gc(shallow=False) removed files listed by a used directory object", "lost": lost, "impl": impl})
     if ex_before:
         ctx.count("unpacked_leftovers")
     # a dry run removes nothing at all; a real run takes the leftover along with an unused directory object only
@@ -349,8 +434,10 @@ def model_req(case, uni, before=None):
             "unpacked": sorted(case.get("unpacked", [])) if case["local"] else []}
 
 
-def run_cases(ctx, n, algos=False, nested=False):
-    if nested:
+def run_cases(ctx, n, algos=False, nested=False, names=False):
+    if names:
+        cases = [gen_case(ctx.rng, ctx.rng.choice(["md5", "md5", "md5-dos2unix", "sha256"]), names=True) for _ in range(n)]
+    elif nested:
         cases = [gen_nested_case(ctx.rng, ctx.rng.choice([None, None, None] + ALGOS[:2])) for _ in range(n)]
     else:
         cases = [gen_case(ctx.rng, ctx.rng.choice(ALGOS) if algos else None) for _ in range(n)]
@@ -371,19 +458,25 @@ def run(ctx):
         "the directory of the other (<cache> and <cache>/files/md5 as dvc_data.repo.Repo lays them out, and other depths / "
         "directory-name lengths), the bystander store sharing used and unused objects with the collected one and holding its own, "
         "plus stray non-object files; gc collects the outer or the inner store: count and contents of the collected store as "
-        "before, and every file that is not one of its objects must be left byte-for-byte alone. non-trivial = >=2 objects in the store and >=1 used "
+        "before, and every file that is not one of its objects must be left byte-for-byte alone. A fourth family (counters names:*) "
+        "lets the directories list their files under names that are distinct on POSIX but differ only by what some normalisation "
+        "erases (backslash vs '/', letter case, blanks, trailing dots, Unicode composition, percent-encoding, drive prefixes, "
+        "leading dots, characters JSON escapes), each such name listing a different file; mostly expanding mode, listings written "
+        "by the harness or by Tree.as_bytes; besides the exact-removal oracle, no file listed by a used directory may disappear. non-trivial = >=2 objects in the store and >=1 used "
         "identifier of the store's algorithm; distinct = sha256 of the case"
     )
     ctx.assumptions = ["identifiers of directory objects end in '.dir'"]
     run_cases(ctx, ctx.n(300, 4000))
     run_cases(ctx, ctx.n(150, 1500), algos=True)
     run_cases(ctx, ctx.n(120, 1200), nested=True)
+    run_cases(ctx, ctx.n(150, 1500), names=True)
 
 
 def search(ctx):
     run_cases(ctx, 4000)
     run_cases(ctx, 1500, algos=True)
     run_cases(ctx, 1200, nested=True)
+    run_cases(ctx, 1500, names=True)
 
 
 def replay(ctx, payload):
